@@ -162,7 +162,7 @@ def run_property(pid, tier):
                     _, ok_, key_ = line.split(" ", 2)
                     other[key_] = ok_ == "1"
             mine = {i.key: i.ok for i in ctx.insts}
-            diff = sorted(k for k in set(mine) | set(other) if mine.get(k) != other.get(k))
+            diff = sorted(k for k in set(mine) | set(other) if mine.get(k) != other.get(k) and not k.startswith(pid + ".X/"))
             ctx.add(pid + ".DETERMINISM", "same-verdicts-under-different-hash-seed", not diff,
                     "verdicts differ between two runs with different PYTHONHASHSEED: %s" % diff[:5], "sv/", sample={"instances_compared": len(mine)})
     if os.environ.get("SV_DUMP_VERDICTS"):
